@@ -11,6 +11,18 @@ CHECKS = {
         text="Every cell of trial kind x (norb,n_up,n_dn) x orbital variant x reference determinant x entry point x batch count is executed on the real library over a complete product grid of complex walker matrices (d+1 non-real letters per matrix entry, d = polynomial degree of the overlap in that entry) and over a basis of the CI parameters; the oracle is the inner product written out in Fock space. For implementations in the stated degree class the grid decides the identity for every walker (combinatorial Nullstellensatz); otherwise it is a dense exhaustive test. Bounded exhaustive exploration is the right level because the defects live in configuration corners no sampled test visits.",
         note="norb <= 3 (quick) / 4 (thorough), grids capped at 2^16 / 3^9 points (caps reported in evidence), real trial parameters, orthogonal CI bases; trusts NumPy determinants and the Fock reference (self-tested against an independent Jordan-Wigner construction).",
         design="2/C01"),
+    "C02": dict(
+        engine="gridmc",
+        technique="exhaustive enumeration of trial kinds x sizes x Hamiltonian basis (units, pair sums, slot pairs, dense) x walker product grid on the real code, against <psi|H|phi>/<psi|phi> in Fock space; step-size ladder for the finite-difference trials",
+        text="The local energy is affine in (h0,h1) and quadratic in each Cholesky matrix, and its numerator is a low-degree polynomial in the walker entries, so evaluating every Hamiltonian of a polarisation basis on a complete walker product grid decides the identity for the implementation's degree class and is an exhaustive structured test otherwise; all trial kinds, both walker containers, spin-dependent one-body terms where the property admits them. The AD/finite-difference trials are additionally checked for quadratic convergence on a step ladder.",
+        note="norb <= 3 (+ two 4-orbital sizes) quick / 4 thorough; walker grids capped at 2^12 / 3^8 points for the energy (caps reported); walkers within 1e-2 of a node of the reference overlap excluded beforehand; tolerances 1e-9 (float64), 2e-5 (complex64 intermediates of cisd/ucisd), 3e-6 at the default FD step.",
+        design="2/C02"),
+    "C03": dict(
+        engine="gridmc",
+        technique="exhaustive enumeration of trial kinds x sizes x Cholesky basis x walker product grid on the real code, against <psi|L_g|phi>/<psi|phi> in Fock space and the log-derivative of the public overlap",
+        text="The force bias is linear in each Cholesky matrix; every symmetric unit matrix plus a dense triple (g-axis order) on a complete walker product grid decides it for all trial kinds (Green's-function, reverse-mode AD and hand-coded implementations are all compared with the same Fock-space mixed expectation, hence with each other) and both walker containers; the defining logarithmic derivative is checked through the public calc_overlap by central differences.",
+        note="same bounds as C02; central-difference comparison at 1e-5 relative.",
+        design="2/C03"),
 }
 
 NOT_YET = {}
